@@ -554,4 +554,45 @@ def Deny.has (cmd : Bool) (d : Deny) (s : Str) : Prop :=
 def Deny.le (d d' : Deny) : Prop :=
   (∀ x ∈ d.files, x ∈ d'.files) ∧ (∀ x ∈ d.commands, x ∈ d'.commands) ∧ (∀ x ∈ d.disabled, x ∈ d'.disabled)
 
+/-! ## several collect() calls in one process
+
+`blacklist._FILE_FILTERS` / `_COMMAND_FILTERS` / `BLACKLISTED_SPECS` are module-level and never reset; the enabled flags are
+reset by apply_default_enabled / apply_configs at the start of EVERY collect().  `Proc` is that state. -/
+
+/-- field-wise append -/
+def Deny.app (a b : Deny) : Deny :=
+  { files := a.files ++ b.files, commands := a.commands ++ b.commands, disabled := a.disabled ++ b.disabled }
+
+def compStep (isComp : Str → Bool) (d : Deny) (c : Str) : Deny :=
+  if isComp c then { d with disabled := d.disabled ++ [c] } else d
+
+/-- apply_blacklist on top of the deny state `d0` an earlier application left behind -/
+def applyBlacklistFrom (isSpec isComp : Str → Bool) (d0 : Deny) (files commands components : List Str) : Deny :=
+  components.foldl (compStep isComp)
+    (commands.foldl (fun d s => d.reg isSpec true s) (files.foldl (fun d s => d.reg isSpec false s) d0))
+
+/-- `component.split('.')[-1]` -/
+def shortName (s : Str) : Str := (s.reverse.takeWhile (· != '.')).reverse
+
+structure Proc where
+  /-- BLACKLISTED_SPECS: short names, duplicates allowed, never reset -/
+  recorded : List Str := []
+  files : List Str := []
+  commands : List Str := []
+  /-- components whose enabled flag is False -/
+  disabled : List Str := []
+
+structure Cfg where
+  files : List Str
+  commands : List Str
+  components : List Str
+
+/-- one collect(): the flags are reset, then the deny list is applied on top of the never-reset module state -/
+def collectStep (isSpec isComp : Str → Bool) (st : Proc) (cfg : Cfg) : Proc :=
+  let d := applyBlacklistFrom isSpec isComp { files := st.files, commands := st.commands, disabled := [] }
+             cfg.files cfg.commands cfg.components
+  { recorded := st.recorded ++ d.disabled.map shortName, files := d.files, commands := d.commands, disabled := d.disabled }
+
+def runHistory (isSpec isComp : Str → Bool) (st : Proc) (h : List Cfg) : Proc := h.foldl (collectStep isSpec isComp) st
+
 end IV.Paths
